@@ -15,13 +15,16 @@ SPEC = {
          "eval": "fun c => let '(s, w, d, v, p, r) := c in check_qs s w d v p r", "per_shard": 25},
     ],
     "classes": CLASSES,
-    "n_quick": 1200, "n_thorough": 15000,
+    "n_quick": 1600, "n_thorough": 15000,
     "level": "proof",
     "what_violation": "a subscription response carries errors of another event / loses its own / a streamed query does not yield exactly execute's response",
     "rule": ("derive-built #[Subscription] root (5 root fields: non-null and nullable object items, a leaf item) over the schema family of "
              "harness/src/family.rs; events pushed through futures_channel::mpsc; resolvers directly under the event gated, nested resolvers "
              "failing at nullable and non-null positions; the real execute_stream polled by hand under schedules of push/close/open-gate/poll: "
-             "a fixed corpus (finding witness, root fragments, failing creator, stream end, nullable items, try_join_all abort), all schedules "
+             "a fixed corpus (finding witness, root fragments, failing creator, stream end, nullable items, try_join_all abort), ALL order-preserving merges "
+             "of the event life cycles (push, open gate) of 2-3 root fields with errors recorded at nullable positions before and after the suspension "
+             "point on every stream (one and two events per stream; polls after every subset of actions / after every action: executions overlap in "
+             "both nestings and partially), all schedules "
              "over 5 actions up to the length the budget allows on three scenarios, then random documents/worlds/gates/schedules; plus queries "
              "and mutations sent through execute_stream and execute; distinct by case text; non-trivial = at least one response delivered"),
     "trusted": ["harness world/registry dump, document printer, schedule driver (noop waker, drain until 3 consecutive Pending)",
